@@ -63,8 +63,8 @@ def delivered_something(s, es):
 
 # ---------------------------------------------------------------------------------------------
 def check_C01(ctx):
-    n = 0 if not ctx.quick() else 0
-    scen = vt.tlc_generate(ctx, 'GenWire', 'C01', n)
+    vt.tlc_design(ctx, 'MatcherMC', label='matchers: C01/C02/C04 design invariants over the perturbation lattice')
+    scen = vt.tlc_generate(ctx, 'GenWire', 'C01', 0)
     wire_family(ctx, 'C01', scen,
                 rule='one scenario per (variant, strict/relaxed, identifier base, TTL range, single-field perturbation or '
                      'unsent/early/looped genuine packet, injection instant) enumerated by TLC from GenWire!C01All; executed on the real '
